@@ -1,3 +1,381 @@
-From Coq Require Import List NArith Bool Arith.
-From Atlas Require Import Base.Bytes Dir.DirModel.
+(** C06 -- directory integrity (sql/migrate/dir.go: NewHashFile, HashFile.Sum /
+    MarshalText / UnmarshalText, Validate, directive; migrate.go: WritePlan,
+    WriteCheckpoint, writeSum; dir.go: MemDir.CopyFiles).
+
+    Property: "After the sum file has been written for a directory, validation
+    succeeds as long as the set of migration files, their names, order and
+    bytes are unchanged, and fails with a checksum error after any change: a
+    file added anywhere, removed, renamed, reordered, or edited by even one
+    byte, or a sum file whose lines were edited.  Every Atlas operation that
+    writes to the directory leaves it valid."
+
+    Only statements, [exact], [Print Assumptions] and [Example]s live here.
+    [HS] stands for base64(sha256(.)).  The only thing assumed of it is its
+    *shape* ([hash_ok]: 44 bytes of the base64 alphabet, checked on every
+    value by the OCaml driver); collision freeness is NOT assumed: every
+    detection theorem concludes "detected, or here are two different byte
+    strings, computed from the two directories, with the same hash".
+
+    The statement as worded is false of the code in five ways (each a
+    [_refuted] theorem whose witness holds for EVERY hash of that shape, is
+    replayed on the Go code by the harness, and is an open known finding);
+    next to each stands the exact characterisation that does hold. *)
+From Coq Require Import List NArith Bool Arith Strings.String.
+From Atlas Require Import Base.Bytes Dir.DirModel Dir.DirProofs Dir.DirDetect Dir.DirEdits Dir.DirGlob
+  Dir.DirRefuted Dir.DirWriters Dir.DirExact Dir.DirToyHash.
 Import ListNotations.
+
+Section C06.
+Variable HS : bytes -> bytes.
+Hypothesis HS_shape : forall x, hash_ok (HS x).
+
+(** * 1. An untouched directory validates *)
+
+(** ... against the sum file NewHashFile + MarshalText wrote for it -- for
+    every directory (any number of files, any contents, sum-ignored files
+    included) whose names survive the text format of atlas.sum: [names_ok] =
+    every name [n] has [strings.TrimSpace(n) == n] and no line feed
+    (decidable).  ("h1:" inside a name is fine since fix 55b7d3e.) *)
+Theorem C06_untouched_validates :
+  forall d : list file,
+  names_ok d = true ->
+  validate HS d (Some (marshal HS (newhash HS d))) = VOk.
+Proof. exact (untouched_validates_lemma HS HS_shape). Qed.
+
+(** Without [names_ok] it is false: a name containing a line feed makes
+    UnmarshalText fail with ErrChecksumFormat on the file it just wrote.
+    (Leading/trailing white space in a name gives ErrChecksumMismatch the same
+    way; known findings C06-name-whitespace[-writer].) *)
+Theorem C06_untouched_refuted :
+  exists d : list file,
+    NoDup (map fst d) /\ validate HS d (Some (marshal HS (newhash HS d))) = VFormat.
+Proof. exact (untouched_refuted_lemma HS HS_shape). Qed.
+
+(** * 2. Detection as a collision reduction *)
+
+(** If ANY directory [d'] validates against the sum file written for [d],
+    then the two directories have the same [covered] list (per hash line: the
+    file name, and the stream segment  names-of-the-sum-ignored-files-since-
+    the-previous-line ++ name ++ content) -- or two different hash inputs of
+    the two directories collide ([collision] exhibits them).  [names_wf]:
+    ".sql" occurs in every name exactly once, as the suffix (decidable; true
+    of every name Atlas generates; reported by the check).
+    The form without [names_wf d'] is [C06_detect_glob] below. *)
+Theorem C06_detect :
+  forall d d' : list file,
+  names_wf d = true -> names_wf d' = true ->
+  validate HS d' (Some (marshal HS (newhash HS d))) = VOk ->
+  covered d = covered d' \/ collision HS (hash_inputs HS d ++ hash_inputs HS d').
+Proof. exact (detect_lemma HS HS_shape). Qed.
+
+(** The same against EVERY directory Dir.Files() can return: nothing is
+    assumed of the tampered names except that they end in ".sql" ([all_sql];
+    Glob "*.sql" guarantees it).  The price is a third disjunct about the
+    ORIGINAL directory only: [embedded_hash HS d] exhibits two of d's own hash
+    streams s, t with HS s occurring inside t (a migration file that quotes
+    the base64 SHA-256 of a prefix of the very stream it belongs to: decidable
+    for the directory at hand, and for a random-looking hash infeasible unless
+    deliberately constructed by the directory's author). *)
+Theorem C06_detect_glob :
+  forall d d' : list file,
+  names_wf d = true -> all_sql d' = true ->
+  validate HS d' (Some (marshal HS (newhash HS d))) = VOk ->
+  covered d = covered d' \/
+  collision HS (hash_inputs HS d ++ hash_inputs HS d') \/
+  embedded_hash HS d.
+Proof. exact (detect_glob_lemma HS HS_shape). Qed.
+
+(** * 3. No sum-ignored file on either side: every change is detected *)
+
+(** Only the directory itself validates -- any other list of files (added
+    anywhere, removed, renamed, reordered, edited by one byte or more, any
+    compound edit) is refused, or a collision is exhibited. *)
+Theorem C06_detect_plain :
+  forall d d' : list file,
+  names_wf d = true -> names_wf d' = true -> no_ignored d = true -> no_ignored d' = true ->
+  validate HS d' (Some (marshal HS (newhash HS d))) = VOk ->
+  d' = d \/ collision HS (hash_inputs HS d ++ hash_inputs HS d').
+Proof. exact (detect_plain_lemma HS HS_shape). Qed.
+
+(** ... and the refusal is a *ChecksumError (not a panic, not another error)
+    when the sum file is the one Atlas wrote for a directory with distinct
+    [names_ok] names. *)
+Theorem C06_detect_plain_checksum_error :
+  forall d d' : list file,
+  names_ok d = true -> NoDup (map fst d) ->
+  names_wf d = true -> names_wf d' = true -> no_ignored d = true -> no_ignored d' = true ->
+  d' <> d ->
+  is_checksum_error (validate HS d' (Some (marshal HS (newhash HS d)))) \/
+  collision HS (hash_inputs HS d ++ hash_inputs HS d').
+Proof. exact (detect_plain_error HS HS_shape). Qed.
+
+(** The edit kinds of the statement, one by one ([single_edit]: a file added
+    at any position, removed, renamed, any reordering, one byte flipped /
+    inserted / deleted at any position of any file, any other content edit). *)
+Theorem C06_single_edit_detected :
+  forall d d' : list file,
+  names_ok d = true -> NoDup (map fst d) -> names_wf d = true -> no_ignored d = true ->
+  single_edit d d' -> names_wf d' = true -> no_ignored d' = true ->
+  is_checksum_error (validate HS d' (Some (marshal HS (newhash HS d)))) \/
+  collision HS (hash_inputs HS d ++ hash_inputs HS d').
+Proof. exact (single_edit_detected HS HS_shape). Qed.
+
+(** Exact characterisation for an original directory without sum-ignored
+    files against ANYTHING Dir.Files() can return ([all_sql]: names end in
+    ".sql"; [sorted_strict]: strictly increasing names; the tampered files
+    MAY carry the sum-ignore directive, their names need not be wf): the only
+    directories that validate are [d ++ t] with every file of [t] sum-ignored
+    (the known finding; converse: [C06_trailing_ignored_undetected]) -- or a
+    collision, or the original quotes one of its own stream hashes. *)
+Theorem C06_detect_plain_exact :
+  forall d d' : list file,
+  names_wf d = true -> no_ignored d = true ->
+  all_sql d' = true -> sorted_strict d' = true ->
+  validate HS d' (Some (marshal HS (newhash HS d))) = VOk ->
+  (exists t, d' = d ++ t /\ all_ignored t = true) \/
+  collision HS (hash_inputs HS d ++ hash_inputs HS d') \/
+  embedded_hash HS d.
+Proof. exact (detect_plain_exact_lemma HS HS_shape). Qed.
+
+Theorem C06_detect_plain_exact_checksum_error :
+  forall d d' : list file,
+  names_ok d = true -> NoDup (map fst d) -> names_wf d = true -> no_ignored d = true ->
+  all_sql d' = true -> sorted_strict d' = true ->
+  (forall t, all_ignored t = true -> d' <> d ++ t) ->
+  is_checksum_error (validate HS d' (Some (marshal HS (newhash HS d)))) \/
+  collision HS (hash_inputs HS d ++ hash_inputs HS d') \/
+  embedded_hash HS d.
+Proof. exact (detect_plain_exact_error HS HS_shape). Qed.
+
+(** * 5. With sum-ignored files: what exactly is pinned down *)
+
+(** [view d]: per hashed file, (names of the sum-ignored files since the
+    previous hashed file, name, content).  Validation pins the view, hence
+    (corollary [view_hashed]) every hashed file's name, bytes and order and
+    the names and positions of the sum-ignored files in front of a hashed
+    one.  This is the [_except] side of [C06_full_refuted]: what is NOT
+    pinned is exactly the content of sum-ignored files and the sum-ignored
+    files after the last hashed file. *)
+Theorem C06_detect_wf :
+  forall d d' : list file,
+  names_wf d = true -> names_wf d' = true -> NoDup (map fst d) -> NoDup (map fst d') ->
+  validate HS d' (Some (marshal HS (newhash HS d))) = VOk ->
+  view d = view d' \/ collision HS (hash_inputs HS d ++ hash_inputs HS d').
+Proof. exact (detect_wf_lemma HS HS_shape). Qed.
+
+(** The unrestricted statement ("fails after ANY change") is false:
+    (a) a sum-ignored file added after the last hashed file, all names wf;
+    (b) names and contents are hashed undelimited: {".sql.sql": ".sqlFOO"} ->
+        {".sql": "-- atlas:sum ignore\n", ".sql.sql": "FOO"} changes a hashed
+        file (this is why [C06_detect] needs [names_wf]). *)
+Theorem C06_full_refuted :
+  (exists d d' : list file,
+     names_ok d = true /\ names_wf d = true /\ names_wf d' = true /\ d' <> d /\
+     validate HS d' (Some (marshal HS (newhash HS d))) = VOk) /\
+  (exists d d' : list file,
+     names_ok d = true /\ no_ignored d = true /\ hashed d' <> hashed d /\
+     validate HS d' (Some (marshal HS (newhash HS d))) = VOk).
+Proof. exact (full_refuted_lemma HS HS_shape). Qed.
+
+(** (a) in general: any sum-ignored files appended to ANY directory *)
+Theorem C06_trailing_ignored_undetected :
+  forall d t : list file,
+  names_ok (d ++ t) = true -> all_ignored t = true ->
+  validate HS (d ++ t) (Some (marshal HS (newhash HS d))) = VOk.
+Proof. exact (trailing_ignored_added HS HS_shape). Qed.
+
+(** the content of a file that carries the directive before and after *)
+Theorem C06_ignored_content_undetected :
+  forall (d1 : list file) (n c c' : bytes) (d2 : list file),
+  names_ok (d1 ++ (n, c') :: d2) = true -> sum_ignored c = true -> sum_ignored c' = true ->
+  validate HS (d1 ++ (n, c') :: d2) (Some (marshal HS (newhash HS (d1 ++ (n, c) :: d2)))) = VOk.
+Proof. exact (ignored_content_edited HS HS_shape). Qed.
+
+(** * 4. Edited sum files *)
+
+(** Exact criterion: a sum file text [s] validates only if UnmarshalText
+    accepts it, and then its entries [ac] have the same concatenation
+    N1 H1 N2 H2 ... as the directory's (or collide with it); entries that are
+    still well formed (names with ".sql" only as suffix, 44-byte hashes)
+    must be the directory's own. *)
+Theorem C06_sumfile_edits_except :
+  forall (d : list file) (s : bytes),
+  names_wf d = true ->
+  validate HS d (Some s) = VOk ->
+  exists ac, unmarshal HS s = UOk ac /\
+    (collision HS [cat_entries ac; cat_entries (newhash HS d)] \/
+     (cat_entries ac = cat_entries (newhash HS d) /\ (Forall entry_wf ac -> ac = newhash HS d))).
+Proof. exact (sumfile_edits_lemma HS HS_shape). Qed.
+
+(** "Any edited sum line is refused" is false: (1) the separator moved inside
+    a line ("2.sql h1:H" -> "2.s h1:qlH") changes the parsed entries but not
+    their concatenation; (2) dropping the final line feed changes the file
+    but not the parsed entries. *)
+Theorem C06_sumfile_edits_refuted :
+  (exists (d : list file) (s : bytes) (ac : list entry),
+     names_ok d = true /\ names_wf d = true /\ unmarshal HS s = UOk ac /\
+     ac <> newhash HS d /\ validate HS d (Some s) = VOk) /\
+  (exists (d : list file) (s : bytes),
+     names_ok d = true /\ s <> marshal HS (newhash HS d) /\ validate HS d (Some s) = VOk).
+Proof. exact (sumfile_refuted_lemma HS HS_shape). Qed.
+
+(** Validate never panics on a sum file whose parsed entries have distinct
+    names (every sum file Atlas writes) ... *)
+Theorem C06_validate_no_panic_except :
+  forall (d : list file) (s : bytes),
+  (forall ac, unmarshal HS s = UOk ac -> NoDup (map fst ac)) ->
+  validate HS d (Some s) <> VPanic.
+Proof. exact (validate_no_panic_lemma HS). Qed.
+
+(** ... but it does (index out of range in the ReasonAdded arm) on a sum file
+    that lists a name twice. *)
+Theorem C06_validate_panic_refuted :
+  exists (d : list file) (s : bytes) (ac : list entry),
+    names_ok d = true /\ names_wf d = true /\ unmarshal HS s = UOk ac /\
+    (validate HS d (Some s) = VPanic \/
+     collision HS [cat_entries ac; cat_entries (newhash HS d)]).
+Proof. exact (validate_panic_refuted_lemma HS HS_shape). Qed.
+
+(** * 6. Every writer leaves the directory valid *)
+
+(** For every sequence of writer operations (Planner.WritePlan,
+    Planner.WriteCheckpoint, MemDir.CopyFiles) from ANY store with [name_ok]
+    names -- valid or not --, the directory validates after each operation
+    (induction over the sequence).  [ops_pre]: written names are [name_ok];
+    CopyFiles is called as Executor.ExecuteTo calls it (MemDir without *.sql
+    files, argument = *.sql files in strictly increasing name order). *)
+Theorem C06_writers_inv :
+  forall (ops : list op) (st : store),
+  store_ok st = true -> ops_pre HS st ops ->
+  Forall (fun s => validate_store HS s = VOk) (run_ops HS st ops).
+Proof. exact (writers_inv_lemma HS HS_shape). Qed.
+
+(** Without the CopyFiles precondition it is false: CopyFiles writes the sum
+    of its argument list, not of the directory. *)
+Theorem C06_writers_refuted :
+  exists (ops : list op) (x y : bytes),
+    Forall (fun o => match o with
+                     | OpWritePlan fs | OpCopyFiles fs =>
+                         names_ok fs = true /\ forallb sqlf fs = true /\ sorted_strict fs = true
+                     | OpWriteCheckpoint n _ _ => name_ok n = true
+                     end) ops /\
+    x <> y /\
+    (Exists (fun s => validate_store HS s <> VOk) (run_ops HS [] ops) \/ HS x = HS y).
+Proof. exact (writers_refuted_lemma HS HS_shape). Qed.
+
+End C06.
+
+(** What the decidable name predicates used above mean. *)
+Theorem C06_name_predicates_spec :
+  (forall n, name_wf n = true <->
+     (exists p, n = p ++ s_sql) /\ (forall a b, n = a ++ s_sql ++ b -> b = [])) /\
+  (forall d, all_sql d = true <-> forall f, In f d -> exists p, fst f = p ++ s_sql) /\
+  (forall n, name_ok n = true <-> trim_space n = n /\ no_nl n).
+Proof. exact (conj name_wf_spec (conj all_sql_spec name_ok_spec)). Qed.
+
+(** The section premise is satisfiable (the toy function is not collision
+    free; no theorem needs that). *)
+Theorem C06_hash_shape_satisfiable : exists HS : bytes -> bytes, forall x, hash_ok (HS x).
+Proof. exact (ex_intro _ toy_hs toy_hs_shape). Qed.
+
+Print Assumptions C06_untouched_validates.
+Print Assumptions C06_untouched_refuted.
+Print Assumptions C06_detect.
+Print Assumptions C06_detect_glob.
+Print Assumptions C06_detect_plain.
+Print Assumptions C06_detect_plain_checksum_error.
+Print Assumptions C06_single_edit_detected.
+Print Assumptions C06_detect_plain_exact.
+Print Assumptions C06_detect_plain_exact_checksum_error.
+Print Assumptions C06_detect_wf.
+Print Assumptions C06_full_refuted.
+Print Assumptions C06_trailing_ignored_undetected.
+Print Assumptions C06_ignored_content_undetected.
+Print Assumptions C06_sumfile_edits_except.
+Print Assumptions C06_sumfile_edits_refuted.
+Print Assumptions C06_validate_no_panic_except.
+Print Assumptions C06_validate_panic_refuted.
+Print Assumptions C06_writers_inv.
+Print Assumptions C06_writers_refuted.
+Print Assumptions C06_name_predicates_spec.
+Print Assumptions C06_hash_shape_satisfiable.
+
+(** * Non-vacuity: concrete inputs meeting the hypotheses (toy hash) *)
+Definition ex_d : list file :=
+  [(bs "1_a.sql", bs "CREATE TABLE a;" ++ [NL]);
+   (bs "2_b.sql", ign_header ++ bs "X;" ++ [NL]);
+   (bs "3_c.sql", bs "Y;" ++ [NL])].
+Definition ex_p : list file :=            (* no sum-ignored file *)
+  [(bs "1_a.sql", bs "CREATE TABLE a;" ++ [NL]); (bs "3_c.sql", bs "Y;" ++ [NL])].
+Definition ex_sum (d : list file) : option bytes := Some (marshal toy_hs (newhash toy_hs d)).
+
+(* 1 *)
+Example ex_untouched :
+  names_ok ex_d = true /\ names_wf ex_d = true /\ validate toy_hs ex_d (ex_sum ex_d) = VOk.
+Proof. vm_compute. auto. Qed.
+
+(* 2, 5: a directory that differs (content of the sum-ignored file, a trailing
+   sum-ignored file) validates; covered and view are equal as the theorems say *)
+Definition ex_d2 : list file :=
+  [(bs "1_a.sql", bs "CREATE TABLE a;" ++ [NL]);
+   (bs "2_b.sql", ign_header ++ bs "DROP TABLE a;" ++ [NL]);
+   (bs "3_c.sql", bs "Y;" ++ [NL]);
+   (bs "4_d.sql", ign_header)].
+Example ex_detect :
+  names_wf ex_d2 = true /\ ex_d2 <> ex_d /\ validate toy_hs ex_d2 (ex_sum ex_d) = VOk /\
+  covered ex_d = covered ex_d2 /\ view ex_d = view ex_d2.
+Proof. vm_compute. repeat split; try reflexivity. discriminate. Qed.
+
+(* 2': a tampered directory with a non-wf name (".sql" twice) meets all_sql and is refused *)
+Example ex_detect_glob :
+  all_sql [(bs "1_a.sql.sql", bs "CREATE TABLE a;" ++ [NL]); (bs "3_c.sql", bs "Y;" ++ [NL])] = true /\
+  names_wf [(bs "1_a.sql.sql", bs "CREATE TABLE a;" ++ [NL]); (bs "3_c.sql", bs "Y;" ++ [NL])] = false /\
+  validate toy_hs [(bs "1_a.sql.sql", bs "CREATE TABLE a;" ++ [NL]); (bs "3_c.sql", bs "Y;" ++ [NL])] (ex_sum ex_p)
+    = VChecksum 2 2 48 (bs "1_a.sql") Removed.
+Proof. vm_compute. repeat split; reflexivity. Qed.
+
+(* 3: the hypotheses hold and each single edit kind yields a *ChecksumError *)
+Example ex_plain :
+  names_ok ex_p = true /\ names_wf ex_p = true /\ no_ignored ex_p = true /\
+  validate toy_hs (insert_at 1 (bs "2_x.sql", bs "Z") ex_p) (ex_sum ex_p)
+    = VChecksum 3 2 (48 + 56) (bs "2_x.sql") Added /\
+  validate toy_hs (delete_at 0 ex_p) (ex_sum ex_p) = VChecksum 2 2 48 (bs "1_a.sql") Removed /\
+  validate toy_hs (replace_at 1 (bs "3_c.sql", replace_at 0 90%N (bs "Y;" ++ [NL])) ex_p) (ex_sum ex_p)
+    = VChecksum 3 2 (48 + 56) (bs "3_c.sql") Edited /\
+  validate toy_hs (replace_at 0 (bs "0_a.sql", bs "CREATE TABLE a;" ++ [NL]) ex_p) (ex_sum ex_p)
+    = VChecksum 2 2 48 (bs "1_a.sql") Removed.
+Proof. vm_compute. repeat split; reflexivity. Qed.
+
+(* 3': tampered directory with a non-wf name AND a new sum-ignored file in front: refused;
+   only trailing sum-ignored files pass *)
+Example ex_plain_exact :
+  let d1 := [(bs "0_x.sql", ign_header); (bs "1_a.sql", bs "CREATE TABLE a;" ++ [NL]); (bs "3_c.sql", bs "Y;" ++ [NL])] in
+  let d2 := ex_p ++ [(bs "4_x.sql.sql", ign_header)] in
+  all_sql d1 = true /\ sorted_strict d1 = true /\
+  validate toy_hs d1 (ex_sum ex_p) = VChecksum 2 2 48 (bs "1_a.sql") Edited /\
+  all_sql d2 = true /\ sorted_strict d2 = true /\ validate toy_hs d2 (ex_sum ex_p) = VOk.
+Proof. vm_compute. repeat split; reflexivity. Qed.
+
+(* 4: an edited hash in a sum line is refused *)
+Example ex_sumfile_edit :
+  validate toy_hs ex_p (Some (sumfile (hf_sum toy_hs [(bs "1_a.sql", toy_hs [])]) [(bs "1_a.sql", toy_hs [])]))
+  = VChecksum 2 1 48 (bs "1_a.sql") Edited.
+Proof. vm_compute. reflexivity. Qed.
+
+(* 6: a writer sequence meeting ops_pre, including CopyFiles into a fresh MemDir *)
+Definition ex_ops1 : list op :=
+  [OpWritePlan [(bs "1_a.sql", bs "A;")];
+   OpWriteCheckpoint (bs "2_cp.sql") (bs "v1") (bs "B;");
+   OpWritePlan [(bs "3_c.sql", bs "C;"); (bs "1_a.sql", bs "A2;")]].
+Definition ex_ops2 : list op := [OpCopyFiles [(bs "1_a.sql", bs "A;"); (bs "2_b.sql", bs "B;")]].
+Example ex_writers :
+  ops_pre toy_hs [] ex_ops1 /\ ops_pre toy_hs [] ex_ops2 /\
+  map (validate_store toy_hs) (run_ops toy_hs [] ex_ops1) = [VOk; VOk; VOk] /\
+  map (validate_store toy_hs) (run_ops toy_hs [] ex_ops2) = [VOk].
+Proof. vm_compute. repeat split; reflexivity. Qed.
+
+(* the CopyFiles witness on the toy hash: the second store does not validate *)
+Example ex_writers_refuted :
+  map (validate_store toy_hs) (run_ops toy_hs [] wc_ops)
+  = [VOk; VChecksum 2 1 48 (bs "2.sql") Added].
+Proof. vm_compute. reflexivity. Qed.
